@@ -159,9 +159,10 @@ class WorkingHours:
 
             # Check for cross-midnight shift (e.g., 22:00 - 06:00)
             if end_minutes <= start_minutes:
-                # This interval crosses midnight
-                # Working time is: start_minutes <= slot < 1440 OR 0 <= slot < end_minutes
-                if slot_minutes >= start_minutes or slot_minutes < end_minutes:
+                # This interval crosses midnight: on this day it covers
+                # start_minutes <= slot < 1440. The part after midnight belongs to the
+                # following day and is handled by the previous-day check below.
+                if slot_minutes >= start_minutes:
                     return True
             else:
                 # Normal interval within same day
